@@ -307,6 +307,16 @@ func (txEngine) run(ctx *simrt.Ctx) *simrt.Violation {
 				txs = append(txs, mkTx(txGood, int(op.Int(1)+j)%NAccounts, int(op.Int(1)+j+1)%NAccounts, 5+j, op.Int(3)+j, 0))
 			}
 			sent = append(sent, txs...)
+			// a peer's block usually also carries transactions this node already
+			// has in its own pool (the node then skips re-verifying those)
+			if mp, err := sut.API.GetMempool(&types.ReqGetMempool{}); err == nil && len(mp.Txs) > 0 && op.Int(1)%3 != 0 {
+				for j, t := range mp.Txs {
+					if j < 2 {
+						txs = append(txs, t)
+						ctx.Probe("peer_block_shares_pool_tx")
+					}
+				}
+			}
 			poison := op.Int(0)
 			if poison == 1 && len(tip.Chain()) > 0 { // replay a transaction that is on this branch
 				c := tip.Chain()
